@@ -86,13 +86,36 @@ func ReqQueryAdd(req *bfe_basic.Request, params []string) {
 	}
 }
 
+// rawQueryKey returns the decoded key of one raw "key=value" (or bare "key") pair.
+func rawQueryKey(pair string) string {
+	key := pair
+	if i := strings.Index(pair, "="); i >= 0 {
+		key = pair[:i]
+	}
+	if decoded, err := url.QueryUnescape(key); err == nil {
+		return decoded
+	}
+	return key
+}
+
+// rawQueryDel removes from rawQuery every pair whose decoded key satisfies del.
+// The remaining pairs are kept byte for byte.
+func rawQueryDel(rawQuery string, del func(key string) bool) string {
+	pairs := strings.Split(rawQuery, "&")
+	kept := make([]string, 0, len(pairs))
+	for _, pair := range pairs {
+		if pair != "" && del(rawQueryKey(pair)) {
+			continue
+		}
+		kept = append(kept, pair)
+	}
+	return strings.Join(kept, "&")
+}
+
 // ReqQueryRename renames query key from old name to new name.
 func ReqQueryRename(req *bfe_basic.Request, oldName string, newName string) {
 	var values []string
 	var ok bool
-
-	// add prefix "&" to simplify process
-	rawQuery := "&" + req.HttpRequest.URL.RawQuery
 
 	// parse the query
 	queries := queryParse(req)
@@ -106,58 +129,40 @@ func ReqQueryRename(req *bfe_basic.Request, oldName string, newName string) {
 	queries.Del(oldName)
 	queries[newName] = values
 
-	// rename keys
-	srcKey := "&" + oldName + "="
-	dstKey := "&" + newName + "="
-	rawQuery = strings.Replace(rawQuery, srcKey, dstKey, -1)
-
-	// remove prefix "&"
-	req.HttpRequest.URL.RawQuery = rawQuery[1:]
+	// rename keys in raw query, whatever their encoding; values are kept byte for byte
+	pairs := strings.Split(req.HttpRequest.URL.RawQuery, "&")
+	for i, pair := range pairs {
+		if pair == "" || rawQueryKey(pair) != oldName {
+			continue
+		}
+		if j := strings.Index(pair, "="); j >= 0 {
+			pairs[i] = newName + pair[j:]
+		} else {
+			pairs[i] = newName
+		}
+	}
+	req.HttpRequest.URL.RawQuery = strings.Join(pairs, "&")
 }
 
 // ReqQueryDel deletes some keys from query
 func ReqQueryDel(req *bfe_basic.Request, keys []string) {
-	// add "&" prefix and suffix to simplify process
-	rawQuery := "&" + req.HttpRequest.URL.RawQuery + "&"
-
 	// parse the query
 	queries := queryParse(req)
 
 	// delete some keys from queries
+	keysMap := make(map[string]bool)
 	for _, key := range keys {
 		queries.Del(key)
-
-		for {
-			// find key start &key=
-			start := strings.Index(rawQuery, "&"+key+"=")
-			if start == -1 {
-				break
-			}
-
-			// find value end
-			end := strings.Index(rawQuery[start+1:], "&")
-			if end == -1 {
-				break
-			}
-
-			// remove start:start+end part
-			rawQuery = rawQuery[:start] + rawQuery[start+end+1:]
-		}
+		keysMap[key] = true
 	}
 
-	// set rawQuery, remove "&" prefix and suffix
-	if len(rawQuery) == 1 {
-		req.HttpRequest.URL.RawQuery = ""
-	} else {
-		req.HttpRequest.URL.RawQuery = rawQuery[1 : len(rawQuery)-1]
-	}
+	// delete the same keys from raw query, whatever their encoding
+	req.HttpRequest.URL.RawQuery = rawQueryDel(req.HttpRequest.URL.RawQuery,
+		func(key string) bool { return keysMap[key] })
 }
 
 // ReqQueryDelAllExcept deletes all keys from query, except some keys
 func ReqQueryDelAllExcept(req *bfe_basic.Request, keys []string) {
-	// add "&" prefix and suffix to simplify process
-	rawQuery := "&" + req.HttpRequest.URL.RawQuery + "&"
-
 	// parse the query
 	queries := queryParse(req)
 
@@ -167,35 +172,14 @@ func ReqQueryDelAllExcept(req *bfe_basic.Request, keys []string) {
 		keysMap[key] = true
 	}
 
-	// delete some keys from queries, except keys in keysMap
+	// delete keys from queries, except keys in keysMap
 	for key := range queries {
-		if _, ok := keysMap[key]; ok {
-			continue
-		}
-
-		queries.Del(key)
-		for {
-			// find key start
-			start := strings.Index(rawQuery, "&"+key+"=")
-			if start == -1 {
-				break
-			}
-
-			// find value end
-			end := strings.Index(rawQuery[start+1:], "&")
-			if end == -1 {
-				break
-			}
-
-			// remove start:start+end part
-			rawQuery = rawQuery[:start] + rawQuery[start+end+1:]
+		if !keysMap[key] {
+			queries.Del(key)
 		}
 	}
 
-	// set rawQuery, remove "&" prefix and suffix
-	if len(rawQuery) == 1 {
-		req.HttpRequest.URL.RawQuery = ""
-	} else {
-		req.HttpRequest.URL.RawQuery = rawQuery[1 : len(rawQuery)-1]
-	}
+	// delete the same keys from raw query, whatever their encoding
+	req.HttpRequest.URL.RawQuery = rawQueryDel(req.HttpRequest.URL.RawQuery,
+		func(key string) bool { return !keysMap[key] })
 }
